@@ -2,7 +2,7 @@ from registry import reg, Check
 
 reg(Check(
     "C07", "c07",
-    coq_targets=["Subscribe/C07Check.vo", "Subscribe/SubProofs.vo", "Props/C07.vo"],
+    coq_targets=["Subscribe/C05Check.vo", "Subscribe/C07Check.vo", "Subscribe/SubProofs.vo", "Subscribe/SubCheckProofs.vo", "Props/C07.vo"],
     assumptions=[
         "the ACL is an oracle allow(user, target) that does not change during one RPC; NewRPCACL either fails or yields the per-RPC check of one user",
         "sequential script: the subscriber is quiescent between two steps (one cache operation at a time, its responses drained before the next); the never_sends_denied invariant does not depend on this, the completeness clause is stated for such scripts",
